@@ -21,15 +21,15 @@ type nvKind int
 const (
 	nvOpaque nvKind = iota
 	nvSelf
-	nvField   // load of a field of the reader: fld, inc = increments applied before the load
-	nvConst   // integer / bool constant
-	nvCmp     // a op b
-	nvErrNil  // (err == nil) is `eq`; src: "entry" | "rrg"
-	nvRRG     // the error returned by readRowGroup in this call
-	nvErrFld  // the reader's error field; src says what it holds
-	nvAdd1    // a + 1
-	nvNot     // !a
-	nvFAddr   // address of a field of the reader
+	nvField  // load of a field of the reader: fld, inc = increments applied before the load
+	nvConst  // integer / bool constant
+	nvCmp    // a op b
+	nvErrNil // (err == nil) is `eq`; src: "entry" | "rrg"
+	nvRRG    // the error returned by readRowGroup in this call
+	nvErrFld // the reader's error field; src says what it holds
+	nvAdd1   // a + 1
+	nvNot    // !a
+	nvFAddr  // address of a field of the reader
 	nvNilConst
 )
 
